@@ -207,7 +207,8 @@ Definition supers_ready (w : world) (supers : list nat) : bool :=
   forallb (fun s => match lookup (reg w) s with Some id => readyb w id | None => false end) supers.
 Fixpoint nodupb (l : list nat) : bool :=
   match l with [] => true | x :: r => negb (memb x r) && nodupb r end.
-(* classChanged visits a class only after those of its direct supers that it will merge as well *)
+(* classChanged merges a class only when each of its direct supers is registered and ready and is either
+   not to be merged itself or has been merged before *)
 Fixpoint topo_ok (w : world) (n : nat) (done corder : list nat) : bool :=
   match corder with
   | [] => true
@@ -217,7 +218,7 @@ Fixpoint topo_ok (w : world) (n : nat) (done corder : list nat) : bool :=
          | None => false
          | Some c => forallb (fun d => match lookup (reg w) d with
                                        | None => false
-                                       | Some did => negb (inherits w did n) || memb did done
+                                       | Some did => readyb w did && (negb (inherits w did n) || memb did done)
                                        end) (co_supers c)
          end
        else true) && topo_ok w n (id :: done) r
@@ -227,8 +228,9 @@ Definition cache_keys (w : world) : list nat := flat_map (fun kg => map fst (g_c
 Definition g_defclass (w : world) (n : nat) (supers : list nat) (slots : list slotdef) (rorder corder : list nat) : bool :=
   let wr := defclass_reg w n supers slots in
   let pre := defclass_pre w n supers slots rorder in
-  (* the shape of the form: user class names, slot names distinct, no initarg on two slots of the form *)
-  forallb (fun c => Nat.ltb c SO) (n :: supers) && nodupb (map sd_name slots) && nodupb (map fst (slot_initargs slots))
+  (* the shape of the form: user class names, direct superclasses distinct, slot names distinct, no initarg on
+     two slots of the form *)
+  forallb (fun c => Nat.ltb c SO) (n :: supers) && nodupb supers && nodupb (map sd_name slots) && nodupb (map fst (slot_initargs slots))
   (* the iteration orders are orders of the registered classes *)
   && forallb (fun id => memb id rorder) (reg_ids wr) && forallb (fun id => memb id (reg_ids wr)) rorder
   && forallb (fun id => memb id corder) (sub_ids pre n) && forallb (fun id => memb id (reg_ids pre)) corder
@@ -240,9 +242,7 @@ Definition g_defclass (w : world) (n : nat) (supers : list nat) (slots : list sl
            let bad := n :: flat_map (fun id => match name_of w id with Some m => [m] | None => [] end) subs in
            (* no superclass of the new definition inherits the class being redefined *)
            forallb (fun d => negb (memb d bad)) supers
-           (* inheriting classes exist only if the new definition is usable at once *)
-           && (is_nil subs || supers_ready w supers)
-           (* superclasses are merged again before their subclasses *)
+           (* superclasses (the new definition of n included) are ready, and merged again before their subclasses *)
            && topo_ok pre n [] corder
            (* no generic has cached a dispatch for the class or an inheriting class *)
            && forallb (fun k => negb (memb k bad)) (cache_keys w)
